@@ -38,7 +38,8 @@ def _big_stack():
 
 def run_model(ctx, args, text, timeout=1800):
     """the compiled Lean driver, with an unlimited stack (long lines = deep structural recursion)"""
-    p = subprocess.run([ctx.driver_path(), "relay"] + list(args), input=text.encode(), stdout=subprocess.PIPE,
+    p = subprocess.run([getattr(ctx, "_relay_driver", None) or ctx.driver_path(), "relay"] + list(args),
+                       input=text.encode(), stdout=subprocess.PIPE,
                        stderr=subprocess.PIPE, timeout=timeout, preexec_fn=_big_stack)
     if p.returncode != 0:
         raise RuntimeError("model driver failed: " + p.stderr.decode("utf-8", "replace")[-2000:])
@@ -873,6 +874,18 @@ def run_check(ctx, prop, props_module, level):
     builder.start()
     ctx.gen_consts(["cbuf", "dsh", "relay"])
     ctx.lean_build([props_module, "pdshmodel"])
+    # the model driver carries the regenerated constants of THIS run's tree; another check running in the same
+    # framework directory on another tree (a seeded sweep next to a thorough run) regenerates Gen/*.lean and relinks
+    # lean/.lake/build/bin/pdshmodel under our feet -- minutes of model calls would then answer for the wrong
+    # constants (a false alarm that does not reproduce).  This run keeps the driver it built.
+    try:
+        import shutil
+        mine = os.path.join(ctx.scratch, "pdshmodel-of-this-run")
+        shutil.copy2(ctx.driver_path(), mine)
+        if not os.environ.get("RELAY_SHARED_DRIVER"):          # (knob to demonstrate the hazard: use the shared binary)
+            ctx._relay_driver = mine
+    except OSError:
+        pass
     ctx.audit(props_module)
     cov = {"evaluations": 0, "distinct_nontrivial": 0, "samples": [], "_distinct": set(),
            "rule": "PINNED FIRST, every run, both build flavours (vlib/relay_pinned.py): lines of exactly 64/65/2047-2049/"
